@@ -35,6 +35,8 @@ pub struct Scn {
     pub pending_room_events: HashMap<String, usize>,
     /// room-modified events read from the peers' channels and not yet handed to a serving connection
     pub room_queue: HashMap<String, Vec<std::sync::Arc<vh::database::room::Room>>>,
+    /// rooms created or updated on a peer since its last `serve`
+    pub touched_rooms: HashMap<String, HashSet<Uid>>,
 }
 
 impl World {
@@ -526,20 +528,30 @@ pub async fn serve(world: &mut World, scn: &mut Scn, step: &Value) -> Result<Val
     }
     let mut changed: Vec<std::sync::Arc<vh::database::room::Room>> = Vec::new();
     {
-        // every accepted room creation or update of the server is announced: wait for those announcements (they are asynchronous)
-        let expected = scn.pending_room_events.remove(&sname).unwrap_or(0);
-        // (an update that changes nothing is not announced: give up after a quiet period)
-        let mut quiet = 0;
-        while quiet < 100 {
-            let before = changed.len();
-            absorb_room_events(world, scn);
-            changed.append(scn.room_queue.entry(sname.clone()).or_default());
-            if changed.len() >= expected {
-                break;
+        // every accepted room creation or update of the server is announced, asynchronously: for each room touched since the last
+        // call, wait until the announced room decides like the definition the server stores (nothing to wait for when the update
+        // changed nothing)
+        let _ = scn.pending_room_events.remove(&sname);
+        let touched: Vec<Uid> = scn.touched_rooms.remove(&sname).map(|h| h.into_iter().collect()).unwrap_or_default();
+        if !touched.is_empty() {
+            let now = vh::date_utils::now();
+            let stored_rooms = {
+                let p = &world.peers[&sname];
+                let mut ra = vh::database::authorisation_service::RoomAuthorisations { signing_key: signing_key_of(&p.user), rooms: HashMap::new(), max_node_size: 1 << 20 };
+                if let Ok(jsn) = p.db.query(vh::database::authorisation_service::RoomAuthorisations::LOAD_QUERY, None).await {
+                    let _ = ra.load_json(&jsn);
+                }
+                ra
+            };
+            for r in touched {
+                if let Some(sr) = stored_rooms.rooms.get(&r) {
+                    let want = matrix_of(sr, scn, &[now]);
+                    let _ = live_matrix(world, scn, &sname, r, &[now], Some(&want)).await;
+                }
             }
-            quiet = if changed.len() > before { 0 } else { quiet + 1 };
-            tokio::time::sleep(std::time::Duration::from_millis(5)).await;
         }
+        absorb_room_events(world, scn);
+        changed.append(scn.room_queue.entry(sname.clone()).or_default());
     }
     let server = &world.peers[&sname];
     if !scn.conns.contains_key(&cid) {
@@ -892,10 +904,10 @@ pub fn absorb_room_events(world: &mut World, scn: &mut Scn) {
 
 /// decisions of the room carried by the last room-modified event of a peer.  Announcements are asynchronous: when `want`
 /// (the decisions of the stored definition) is given, events are awaited until the announced room decides the same, one
-/// second at most; without it, until some announcement of the room has been seen.
+/// few seconds at most (only a loaded machine needs them); without it, until some announcement of the room has been seen.
 async fn live_matrix(world: &mut World, scn: &mut Scn, pname: &str, room: Uid, dates: &[i64], want: Option<&Value>) -> Value {
     let mut last = json!({"err": "no room-modified event"});
-    for _ in 0..200 {
+    for _ in 0..3000 {
         absorb_room_events(world, scn);
         let live = scn.live_rooms.get(&(pname.to_string(), room)).cloned();
         if let Some(r) = &live {
@@ -1626,6 +1638,9 @@ pub async fn run_step(world: &mut World, scn: &mut Scn, step: &Value, out: &mut 
     }
     if res.is_ok() && (op == "room" || op == "roomdef" || op == "roomupd") {
         *scn.pending_room_events.entry(s(step, "p")).or_insert(0) += 1;
+        if let Some(r) = step.get("room").and_then(|r| r.as_str()).and_then(|r| scn.names.rooms.get(r)).cloned() {
+            scn.touched_rooms.entry(s(step, "p")).or_default().insert(r);
+        }
     }
     match &res {
         Ok(_) => ev["res"] = json!("ok"),
@@ -1668,7 +1683,7 @@ pub async fn run_step(world: &mut World, scn: &mut Scn, step: &Value, out: &mut 
 pub async fn run_scenario(world: &mut World, sc: &Value, out: &mut TraceWriter) {
     let peers: Vec<String> = arr(sc, "peers").iter().map(|x| x.as_str().unwrap().to_string()).collect();
     let mut scn = Scn { names: Names::default(), hash_ids: HashMap::new(), terms: HashMap::new(), peers: peers.clone(), events: sc.get("events").and_then(|e| e.as_bool()).unwrap_or(false),
-        defs: sc.get("defs").and_then(|e| e.as_bool()).unwrap_or(false), auth_ids: HashMap::new(), user_key: HashMap::new(), defs_cache: None, live_rooms: HashMap::new(), conns: HashMap::new(), pending_room_events: HashMap::new(), room_queue: HashMap::new() };
+        defs: sc.get("defs").and_then(|e| e.as_bool()).unwrap_or(false), auth_ids: HashMap::new(), user_key: HashMap::new(), defs_cache: None, live_rooms: HashMap::new(), conns: HashMap::new(), pending_room_events: HashMap::new(), room_queue: HashMap::new(), touched_rooms: HashMap::new() };
     for p in &peers {
         let user = sc["users"][p].as_str().unwrap_or("u1").to_string();
         world.ensure_peer(p, &user).await;
